@@ -350,17 +350,6 @@ def toy_property_judgement(line, info, result):
         if not m:
             return ("garbled:istream:" + drv, "unparsable result " + result[:100])
         end, n = m.group(1), int(m.group(2))
-        if end == "EOF" and n < len(info["plain"]) + len(info["part"]):
-            # Known quirk, outside the theorems' hypothesis want >= 1 (findings.json): xfrm_get_buffered_data(want = 0)
-            # on a buffer that has been consumed entirely does not refill and answers EOF.  Only when the call that
-            # answered EOF is a want = 0 request; everything else is judged below.
-            mt = re.search(r" t=([0-9,]*)$", result)
-            k = len([x for x in (mt.group(1) if mt else "").split(",") if x])
-            ops = [o.split(":")[0] for o in line.split(" ")[7].split(",")] if line.split(" ")[7] != "-" else []
-            if k < len(ops) and int(ops[k]) == 0 and k > 0:
-                return ("want0-spurious-eof:istream:" + drv,
-                        "xfrm_get_buffered_data(want = 0) reported EOF after %d of %d bytes (buffer consumed entirely, "
-                        "input left)" % (n, len(info["plain"]) + len(info["part"])))
         exp = info["plain"] + info["part"]
         ok_prefix = n <= len(exp) and TG_hash(exp[:n]) == (int(m.group(3)), int(m.group(4)))
         if not ok_prefix:
@@ -877,7 +866,6 @@ def run(ctx):
     ctx.assumptions += [
         "wrapped streams never fail (I/O errors are C13); memory allocation succeeds",
         "xz.c is modelled by the gzip.c loop (lazy re-initialisation = reset at END); FLUSH_SYNC is modelled but unused by the wrappers",
-        "consumers of an xfrm istream ask for want >= 1 (every caller in the tree does; want = 0 is the recorded finding F24)",
         "tool level: identical images follow from the stream theorems only together with the tar layer (C04) and the raw file "
         "istream (C12); searched here, not proved",
     ]
@@ -971,7 +959,7 @@ def run(ctx):
         "seed %d. toy tie per driver (gzip,xz,bzip2,zstd): 17 directed istream + 6 directed ostream cases at the proofs' case splits "
         "(plain size BUFSZ-1/BUFSZ/BUFSZ+1 and cuts before/inside the end marker, final run longer than the buffer so that END comes from a call "
         "without input, member boundary exactly at the buffer boundary with 1-byte windows, empty member, lone magic byte, trailing garbage, "
-        "want=0 after a consumed buffer (finding F24); member 1/2/3 bytes longer than outbuf at finish, inbuf full / full+1 / two inbufs); "
+        "want=0 after a consumed buffer (F24, repaired); member 1/2/3 bytes longer than outbuf at finish, inbuf full / full+1 / two inbufs); "
         "random istream cases = 0-3 toy members (literal/run blocks, checksum or "
         "final-run ending), plain size small or k*BUFSZ+{-515..4097}, mutations truncate/bit-flip/garbage/zero-pad (46%%), "
         "window schedules {all,1-4,mixed,7|131072}, reader (want,take) styles incl. 0/BUFSZ+-1/2*BUFSZ, codec knobs "
